@@ -56,6 +56,7 @@ def run(ctx):
     ximpl = X.build(ctx)
     if ximpl: X.run_cases(ctx, 'sequential operations on an auto-resizing table (work-queue thread scheduled between operations)', ximpl, X.auto_resize_bound_cases(ctx),
                           nontrivial=lambda raw: ' alloc tb' in raw)
+    X.auto_resize_probe(ctx)
     pimpl = X.build_part(ctx)
     if pimpl: X.run_cases(ctx, 'sequential operations with every resize done by the partitioned multi-thread path', pimpl, X.partitioned_seq_cases(ctx), nontrivial=lambda raw: ' create ' in raw)
     return finish(ctx, trusted=TRUSTED, rule='PRNG operation sequences (add / add_unique / add_replace / replace / del / lookup + duplicate walk / traversal / count / resize to 0, 1, powers and non powers of two, ~0 / destroy) on 48 nodes with 16 keys over 8 '
